@@ -22,6 +22,8 @@ var (
 	PVInfo            = ResourceInfo{Group: "", Version: "v1", Resource: "persistentvolumes", Kind: "PersistentVolume", Namespaced: false, HasStatus: true, NoGeneration: true}
 	WidgetInfo        = ResourceInfo{Group: "kids.dev", Version: "v1", Resource: "widgets", Kind: "Widget", Namespaced: true, HasStatus: true}
 	ClusterWidgetInfo = ResourceInfo{Group: "kids.dev", Version: "v1", Resource: "clusterwidgets", Kind: "ClusterWidget", Namespaced: false, HasStatus: true}
+	// a second namespaced resource with a status subresource in the parents' group/version
+	GadgetThingInfo = ResourceInfo{Group: "ctest.dev", Version: "v1", Resource: "gadgetthings", Kind: "GadgetThing", Namespaced: true, HasStatus: true}
 	// parents whose CRD declares subresources without status (C20)
 	ScaleOnlyInfo = ResourceInfo{Group: "ctest.dev", Version: "v1", Resource: "scaleonlys", Kind: "ScaleOnly", Namespaced: true, HasStatus: false}
 	EmptySubInfo  = ResourceInfo{Group: "ctest.dev", Version: "v1", Resource: "emptysubs", Kind: "EmptySub", Namespaced: true, HasStatus: false}
@@ -34,7 +36,7 @@ var (
 	// metacontroller's own
 	RevisionInfo = ResourceInfo{Group: "metacontroller.k8s.io", Version: "v1alpha1", Resource: "controllerrevisions", Kind: "ControllerRevision", Namespaced: true}
 
-	Catalog = []ResourceInfo{ThingInfo, ClusterThingInfo, NoStatusInfo, ConfigMapInfo, PodInfo, PVInfo, WidgetInfo, ClusterWidgetInfo, SecretInfo, GadgetInfo, ZoneInfo, RevisionInfo, AltWidgetInfo, ScaleOnlyInfo, EmptySubInfo}
+	Catalog = []ResourceInfo{ThingInfo, ClusterThingInfo, NoStatusInfo, ConfigMapInfo, PodInfo, PVInfo, WidgetInfo, ClusterWidgetInfo, SecretInfo, GadgetInfo, ZoneInfo, RevisionInfo, AltWidgetInfo, ScaleOnlyInfo, EmptySubInfo, GadgetThingInfo}
 )
 
 func InfoByKind(apiVersion, kind string) (ResourceInfo, bool) {
